@@ -350,6 +350,19 @@ def _snap(args, kwargs):
     return out
 
 
+def _const_snapshot(obj):
+    """the `_constant` of every density an object holds (numbers, by value)"""
+    ds = getattr(obj, "_densities", None)
+    ds = list(ds) if ds is not None else [obj]
+    out = []
+    for d in ds:
+        try:
+            out.append(tuple(np.asarray(getattr(d, "_constant", 0), dtype=float).reshape(-1).tolist()))
+        except Exception:  # noqa
+            out.append(None)
+    return out
+
+
 def refusal_reason(rem, npos, kwnames):
     """The four conditions of `logd_refuses_iff` (Props/C01_full.lean) for parameter names `rem`:
     returns the first that holds or None for a well-formed call."""
@@ -582,7 +595,7 @@ class Program:
                     if isinstance(a, np.ndarray) and a.flags.writeable and a.ndim >= 1:
                         self.buffers[n] = a
             if self.scribbled is None and self.rng.random() < 0.3:
-                self.kept.append((obj, dict(self.fixed), self.remaining()))
+                self.kept.append((obj, dict(self.fixed), self.remaining(), _const_snapshot(obj)))
         if what == "double" and ok:
             rem = self.remaining()
             if any(k in rem[:len(pos)] for k, _ in kw):      # a keyword names a parameter occupied by a positional value
@@ -1076,7 +1089,7 @@ class Program:
                 self.fails.append(("retained:logd-output", {**self.desc, "call": token}, f0, now,
                                    "a number returned by logd changed after later calls (the returned array is a view of internal state)"))
                 break
-        for obj, fixed, rem in self.kept[:3]:
+        for obj, fixed, rem, csnap in self.kept[:3]:
             assign = {n: 0 for n in rem}
             full = dict(fixed); full.update(assign)
             want = self.total(full)
@@ -1091,7 +1104,11 @@ class Program:
             except Exception as e:  # noqa
                 got = "err:" + type(e).__name__
             if not (isinstance(got, float) and close(got, want, TOL)):
-                self.fails.append((f"retained:object:{kb}:logd" + ((":raises" + self._formsuffix([])) if isinstance(got, str) else ""), {**self.desc, "fixed": fixed}, want, got,
+                # the constants stored on the densities of the kept object were changed by a later call on ANOTHER object:
+                # `_add_constants_to_density` does `density._constant += ...` in place on an ndarray shared with the shallow copy
+                shared = isinstance(got, float) and _const_snapshot(obj) != csnap
+                self.fails.append((f"retained:object:{kb}:logd" + (":shared-constant" if shared else "") + ((":raises" + self._formsuffix([])) if isinstance(got, str) else ""),
+                                   {**self.desc, "fixed": fixed, "constants_before": [str(t) for t in csnap], "constants_now": [str(t) for t in _const_snapshot(obj)]} if shared else {**self.desc, "fixed": fixed}, want, got,
                                    "an object obtained earlier no longer evaluates to its joint log-density after later conditioning calls on it"))
 
     def line(self):
